@@ -783,6 +783,10 @@ class C14(Check):
                  "position fen q2k2q1/2nqn2b/1n1P1n1b/2rnr2Q/1NQ1QN1Q/3Q3B/2RQR2B/Q2K2Q1 w - - 0 1"]
         for pos in heavy:
             cases.append((pos, "go wtime 300 btime 300", 300, "heavy-first-iteration"))
+        # time that passes between `go` and the moment the search thread gets going (a loaded machine, or the
+        # previous search thread still in its tail) is gone from the GUI's clock: hook H3 holds the thread for more
+        # than the hard limit (half the clock with one move to go) before it may take the state lock
+        cases.append((self.WALL_POSITIONS[2], "go wtime 2000 btime 2000 movestogo 1", 2000, "late-start:1200"))
         return cases
 
     def extra_phase(self, harness_bin):
@@ -800,7 +804,7 @@ class C14(Check):
             late = 0
             took = None
             for attempt in range(2):
-                eng = Engine(binary)
+                eng = Engine(binary, {"START": int(shape.split(":")[1])} if shape.startswith("late-start") else None)
                 try:
                     eng.send("uci"); eng.read_until(lambda l: l == "uciok", 10)
                     eng.send("isready"); eng.read_until(lambda l: l == "readyok", 10)
@@ -863,6 +867,16 @@ class C16(Check):
         key = None
         if impl in ("panic", "crash", "timeout"):
             return corr, f"evaluation crashes (overflow) on {req!r}", feats, req
+        if f[0] == "evalplay":
+            d = kv(impl)
+            a, b = int(d["ev"]), int(d["evf"])
+            feats.add("played-promotion" if re.search(r"[a-h][18][nbrq]:", req) else "played")
+            if a != b:
+                oracle = (f"after the moves {f[2] if len(f) > 2 else ''!r} from {f[1]} the evaluation is {a}, but {b} for the same "
+                          f"position set up from scratch (the carried game phase / accumulators are off, so the blend weights are)")
+            elif not (-31900 < a < 31900):
+                oracle = f"evaluation {a} is outside the non-mate score range after {req!r}"
+            return corr, oracle, feats, req
         if f[0] == "evalpair":
             if spec == "mirror=DIFF" and corr is None:
                 corr = f"the second position of {req!r} is not Game.mirror (the transformation of theorem eval_mirror) of the first"
@@ -1264,6 +1278,13 @@ class C04(SearchCheck):
         dw = 3 if self.tier == "quick" else 4
         for f in wide:
             lines.append(f"search\t1\t{f}||{dw}|0|0;{mirror(f)}||{dw}|0|0")
+        # a limit so short that the stop is seen before a single root move has been scored (hook H1: every node polls,
+        # the flag reads true at the k-th consultation): the fall-back move must be a legal move of the root
+        for f in ["r3k2r/p1ppqpb1/bn2pnp1/3PN3/1p2P3/2N2Q1p/PPPBBPPP/R3K2R w KQkq - 0 1",
+                  "1QqQqQq1/r6Q/Q6q/q6Q/B2q4/q6Q/k6K/1qQ1QqRb w - - 0 1", start]:
+            for k in (1, 2, 3, 5, 9, 40):
+                # (no follow-up search on the all-queens position: its quiescence trees are too large for the model)
+                lines.append(f"search\t1\t{f}||3|{k}|1" + ("" if f.startswith("1QqQ") else f";{f}||2|0|0"))
         # the largest depth limit there is (u8::MAX, also the limit used when none is given): only dead-drawn
         # positions let all 255 iterations complete
         for f in ["8/8/8/4k3/8/4K3/8/8 w - - 0 1", "8/8/8/4k3/8/4KN2/8/8 b - - 0 1"]:
@@ -1500,6 +1521,8 @@ class C12(SearchCheck):
                     elif c == "@readyok":
                         if e.read_until(lambda l: l == "readyok", 60)[0] is None:
                             return None
+                    elif c.startswith("@sleep:"):
+                        time.sleep(int(c.split(":")[1]) / 1000.0)
                     else:
                         e.send(c)
                 e.send("quit")
@@ -1515,10 +1538,20 @@ class C12(SearchCheck):
             # a `stop` that arrives after the search has already answered (a race no GUI can avoid) must leave
             # nothing behind: neither for the next game nor for the next search of this one
             jobs.append((p, q, "late-stop"))
+        # an option sent the moment `bestmove` arrives is refused while the search thread still owns the tables; the
+        # GUI's next, identical setoption (engine idle) must take effect: compare with a fresh engine given that value
+        jobs.append((self.DEEP[0], self.DEEP[2], "option-refused-then-resent"))
+        jobs.append((self.DEEP[1], self.DEEP[0], "option-refused-then-resent"))
 
         def work(job):
             p, q, dl = job
             fresh = run([f"position fen {q}", f"go depth {depth}", "@bestmove"], None)
+            if dl == "option-refused-then-resent":
+                fresh = run(["setoption name Hash value 1", f"position fen {q}", f"go depth {depth + 2}", "@bestmove"], None)
+                used = run([f"position fen {p}", "go depth 2", "@bestmove", "setoption name Hash value 1", "isready", "@readyok",
+                            "@sleep:250", "setoption name Hash value 1", "ucinewgame", "isready", "@readyok",
+                            f"position fen {q}", f"go depth {depth + 2}", "@bestmove"], {"TAIL": 120})
+                return fresh, used
             if dl == "late-stop":
                 used = run([f"position fen {p}", f"go depth {depth}", "@bestmove", "stop", "ucinewgame", "isready", "@readyok",
                             f"position fen {q}", f"go depth {depth}", "@bestmove"], None)
@@ -1666,7 +1699,11 @@ class C05(UciCheck):
                 h.append(("ucinewgame", "ucinewgame", sleep))
             elif c < 0.45:
                 h.append(("position", rnd.choice(["position startpos", "position startpos moves e2e4 e7e5",
-                                                  "position fen r3k2r/p1ppqpb1/bn2pnp1/3PN3/1p2P3/2N2Q1p/PPPBBPPP/R3K2R w KQkq - 0 1"]), sleep))
+                                                  "position fen r3k2r/p1ppqpb1/bn2pnp1/3PN3/1p2P3/2N2Q1p/PPPBBPPP/R3K2R w KQkq - 0 1",
+                                                  # exactly one legal move; a mate in one; a dead draw
+                                                  "position fen 8/8/8/8/8/2k5/8/K6r w - - 0 1",
+                                                  "position fen 6k1/5ppp/8/8/8/8/8/R5K1 w - - 0 1",
+                                                  "position fen 8/8/8/4k3/8/4K3/8/8 w - - 0 1"]), sleep))
             elif c < 0.52:
                 h.append(("setoption", rnd.choice(["setoption name Hash value 1", "setoption name Hash value 4",
                                                    "setoption name Move Overhead value 10"]), sleep))
@@ -1746,6 +1783,11 @@ class C05(UciCheck):
             ["gofinite:go depth 1", "await", "ucinewgame", "gofinite:go depth 1", "await", "stop", "isready", "quit"],
             ["goinfinite:go infinite", "isready", "stop", "await", "ucinewgame", "stop", "stop", "isready", "quit"],
             ["stop", "ucinewgame", "stop", "isready", "quit"],
+            # a forced move answered on the clock as the very first search, then a late stop
+            ["position:position fen 8/8/8/8/8/2k5/8/K6r w - - 0 1", "gofinite:go wtime 60000 btime 60000 winc 1000 binc 1000",
+             "await", "stop", "isready", "gofinite:go depth 2", "await", "quit"],
+            ["ucinewgame", "position:position fen 8/8/8/8/8/2k5/8/K6r w - - 0 1", "gofinite:go wtime 500 btime 500",
+             "await", "stop", "stop", "isready", "quit"],
         ]
         for fx in fixed:
             for sleep in (0, 20):
@@ -1838,6 +1880,8 @@ class C13(UciCheck):
             vals = sorted({lo, min(lo + 1, hi), dflt, max(hi - 1, lo), hi} | {rnd.randint(lo, hi) for _ in range(self.n(3, 40))})
             if name == "Hash" and self.tier == "quick":
                 vals = [v for v in vals if v <= 64 or v in (hi, hi - 1)]
+            # … and down again: the smallest values once more, now that earlier searches have filled the tables
+            vals = vals + [min(lo + 1, hi), lo]
             plans.append((name, vals))
         fens = [START, "r3k2r/p1ppqpb1/bn2pnp1/3PN3/1p2P3/2N2Q1p/PPPBBPPP/R3K2R w KQkq - 0 1"]
         records = []   # (name, value, fen, bestmove, hash_mb)
